@@ -2,6 +2,7 @@ SPECIFICATION Spec
 CONSTANTS
   ReadSizes = {0, 1, 3, 6, 7, 8, 15, 40}
   MaxReads = 5
+  MaxLives = 2
 INVARIANTS
   NothingLostNothingTwice
   OvBounds
